@@ -98,6 +98,14 @@ func c18Cases(seed uint64, tier string) []core.Case {
 		}
 	}
 	out = append(out, c18IBCCases(rng, reps)...)
+	// one of the tokens is an externally-owned pair whose ERC-20 contract has destroyed itself since it was
+	// registered (kept last as well)
+	for rep := 0; rep < reps; rep++ {
+		ch := chains[rep%len(chains)]
+		for _, rf := range []string{"to", "other"} {
+			out = append(out, core.MkCase(fmt.Sprintf("C18-bridgecall-token-destroyed-%s-%d", rf, rep), c18Spec{Seed: rng.Uint64() ^ 0x5d, Chain: ch, Mode: "bridgecall", Target: "token-destroyed", Refund: rf, NTokens: 2, FailAt: 1}))
+		}
+	}
 	// the receiver is a plain account that already owns coins of the bridged tokens (kept last: the cases above
 	// keep their seeds)
 	for rep := 0; rep < reps; rep++ {
@@ -266,7 +274,40 @@ func c18BridgeCall(spec c18Spec, res *core.CaseResult, verbose bool) {
 		res.Inconclusive = err.Error()
 		return
 	}
-	if spec.Target == "token-disabled-plain" {
+	if spec.Target == "token-disabled-plain" || spec.Target == "token-destroyed" {
+		if spec.Target == "token-destroyed" {
+			// the second token: an ordinary user's ERC-20, registered by governance, some of it converted to coins
+			// (escrow in the module) -- and its contract account deleted afterwards, which is what the state
+			// database does when it commits a contract that destroyed itself
+			owner := c.Users[0]
+			xt, err := w.AddExternalToken(owner, "XDS", big.NewInt(1_000_000), spec.Chain)
+			if err != nil {
+				res.Inconclusive = err.Error()
+				return
+			}
+			if r := c.Msg(&erc20types.MsgConvertERC20{ContractAddress: xt.ERC20.Hex(), Amount: sdkmath.NewInt(100_000), Receiver: owner.Bech32(), Sender: owner.Hex().Hex()}); !r.OK() {
+				res.Inconclusive = "convert: " + r.ErrString()
+				return
+			}
+			// 50000 of it left for the external chain earlier (sent, batched, executed there): what comes back
+			// now is released from what the bridge holds
+			if _, sr := b.SendToExternal(owner, c.Users[2].Hex(), sdk.NewCoin(xt.Base, sdkmath.NewInt(50_000)), sdk.NewCoin(xt.Base, sdkmath.NewInt(10))); !sr.OK() {
+				res.Inconclusive = "send out: " + sr.ErrString()
+				return
+			}
+			if bn, br := b.RequestBatch(b.Oracles[0], xt.Denom[spec.Chain], sdkmath.NewInt(1), sdkmath.ZeroInt(), c.Users[2].Hex()); !br.OK() {
+				res.Inconclusive = "batch: " + br.ErrString()
+				return
+			} else {
+				n, h := b.NextEvent()
+				if err := b.Quorum(b.SendToExternalClaim(n, h, bn, xt.Ext[spec.Chain])); err != nil {
+					res.Inconclusive = "batch executed: " + err.Error()
+					return
+				}
+			}
+			toks[1] = xt
+			c.Next()
+		}
 		c18BridgeCallPlain(spec, res, verbose, c, b, toks)
 		return
 	}
@@ -393,6 +434,9 @@ func c18BridgeCall(spec c18Spec, res *core.CaseResult, verbose bool) {
 func c18BridgeCallPlain(spec c18Spec, res *core.CaseResult, verbose bool, c *chain.Chain, b *fix.Bridge, toks []*fix.WToken) {
 	sender, other, exec, to := c.Users[1], c.Users[2], c.Users[3], c.Users[4]
 	for _, t := range toks {
+		if t.Kind == fix.KindExternal {
+			continue
+		}
 		// coins of the token's own denomination, half of them converted to the ERC-20
 		coins := sdk.NewCoin(t.Base, sdkmath.NewInt(10_000))
 		if err := c.App.BankKeeper.MintCoins(c.Ctx, erc20types.ModuleName, sdk.NewCoins(coins)); err != nil {
@@ -408,7 +452,13 @@ func c18BridgeCallPlain(spec c18Spec, res *core.CaseResult, verbose bool, c *cha
 			return
 		}
 	}
-	if r := c.Msg(&erc20types.MsgToggleTokenConversion{Authority: chain.GovAuthority(), Token: toks[spec.FailAt].Base}); !r.OK() {
+	if spec.Target == "token-destroyed" {
+		if err := c.App.EvmKeeper.DeleteAccount(c.Ctx, toks[spec.FailAt].ERC20); err != nil {
+			res.Inconclusive = "delete contract: " + err.Error()
+			return
+		}
+		res.Count("destroyed_token_cases", 1)
+	} else if r := c.Msg(&erc20types.MsgToggleTokenConversion{Authority: chain.GovAuthority(), Token: toks[spec.FailAt].Base}); !r.OK() {
 		res.Inconclusive = r.ErrString()
 		return
 	}
@@ -470,8 +520,13 @@ func c18BridgeCallPlain(spec c18Spec, res *core.CaseResult, verbose bool, c *cha
 	if fmt.Sprint(got) != fmt.Sprint(want) || cs[0].Refund != fix.ExtAddr(spec.Chain, refund) || cs[0].EventNonce != n {
 		res.Violate("C18/refund-record-content"+sfx, "plain receiver: refund call carries %v to %s for event %d, expected %v to %s for event %d", got, cs[0].Refund, cs[0].EventNonce, want, fix.ExtAddr(spec.Chain, refund), n)
 	}
+	if spec.Target == "token-destroyed" {
+		if _, ok := c.App.Erc20Keeper.GetTokenPair(ctx, toks[spec.FailAt].Base); !ok {
+			res.Violate("C18/failed-bridge-call-left-effects/token-destroyed", "the failed delivery removed the registration of token %s although it was refunded", toks[spec.FailAt].Base)
+		}
+	}
 	if fmt.Sprint(before) != fmt.Sprint(after) {
-		res.Violate("C18/failed-bridge-call-left-effects/token-disabled-plain", "inbound bridge call to a plain account failed at token %d of %d and was refunded in full, but the receiver's own holdings changed: coins/ERC-20 before %v, after %v", spec.FailAt, spec.NTokens, before, after)
+		res.Violate("C18/failed-bridge-call-left-effects/"+spec.Target, "inbound bridge call to a plain account failed at token %d of %d and was refunded in full, but the receiver's own holdings changed: coins/ERC-20 before %v, after %v", spec.FailAt, spec.NTokens, before, after)
 	}
 }
 
